@@ -18,13 +18,16 @@
      list        ()                             files (in)      -> (status (cid ...))  (arch)
      root        ()                             files (in)      -> (status (cid ...))  (arch)
      concat      (version)                      files (in ...)  -> (status out post)   (arch ...)
+     getdag      (version root seljson strict (loads ok))  files (in out) -> (status out post)  (n1) | ()
+                 root = b<cid> | tnone (taken from the archive); seljson = b<json> | tnone; (loads ok) =
+                 the ORACLE: ((cid data) ...) a reference walk opened, and whether it returned nil
      verify      ()                             files (in)      -> (status)            ()
      inspect     (full)                         files (in)      -> (status stats)      ()
    status = tok | terr (exit status class); out = b<bytes> | tnone;
    post = () when there is no output file or the command failed, else
           (status of `car inspect --full out`, status of `car verify out`). *)
 From Coq Require Import Strings.String.
-From GoCar Require Import Bytes Varint Cid Header Frame V2Header Scan Index Store Val CliCmds.
+From GoCar Require Import Bytes Varint Cid Header Frame V2Header Scan Index Store Traversal Val CliCmds.
 
 Definition is_t (v : val) (s : string) : bool :=
   match v with VT t => String.eqb t s | _ => false end.
@@ -108,6 +111,11 @@ Section Run.
       let '(ok, cs) := root_car hdrdec f0 in VL [v_status ok; v_cids cs]
     else if is_t cmd "concat" then
       let '(ok, out) := concat_car hdrdec (vN (vnth 0 flags)) (map vB files) in
+      VL [v_status ok; v_file out; v_post ok out]
+    else if is_t cmd "getdag" then
+      let tr := vnth 4 flags in
+      let '(ok, out) := get_dag hdrdec (vN (vnth 0 flags)) (vfile (vnth 1 flags)) (vblocks (vnth 0 tr))
+                                (vbool (vnth 1 tr)) f0 (vfile (nth 1 files (VT "none"%string))) in
       VL [v_status ok; v_file out; v_post ok out]
     else if is_t cmd "verify" then
       VL [v_status (res_ok (verify_car hok hdrdec f0))]
@@ -305,6 +313,26 @@ Definition prop_cli_with (hok : bytes -> bytes -> option bool) (hdrdec : bytes -
     else if is_t cmd "root" then
       if ok && cids_eqb (vcids (vnth 1 obs)) (a_roots a0) then VT "ok"%string
       else fail2 "root" "root"
+    else if is_t cmd "getdag" then
+      (* the blocks of the output = the first occurrences of what the reference walk loaded
+         (--version 1: per CID; --version 2: per multihash, identity blocks dropped), root = the
+         requested root; a failed walk is a failed command *)
+      let ver := vN (vnth 0 flags) in
+      let tr := vnth 4 flags in
+      let loads := vblocks (vnth 0 tr) in
+      let cls := if ver =? 2 then "getdag-v2"%string else "getdag-v1"%string in
+      let eblocks := if ver =? 2 then dedup_blocks loads else first_occ loads in
+      if negb (vbool (vnth 1 tr)) then
+        (if ok then fail2 "get-dag-exit-status" cls else VT "ok"%string)
+      else if negb ok then fail2 "get-dag-exit-status" cls
+      else match out, vfile (vnth 0 (VL expect)) with
+           | Some f, Some rc =>
+             if negb (expect_archive (decode_archive hok hdrdec f) (if ver =? 2 then 2 else 1) [rc] eblocks)
+             then fail2 "get-dag-blocks" cls
+             else if negb (embedded_index_answers hdrdec f (map fst eblocks)) then fail2 "verify-guard-false" cls
+             else closure_verdict cls (vnth 2 obs) [rc] eblocks
+           | _, _ => fail2 "get-dag-blocks" cls
+           end
     else if is_t cmd "concat" then
       let ver := vN (vnth 0 flags) in
       let cls := if ver =? 2 then "concat-v2"%string else "concat-v1"%string in
